@@ -636,6 +636,9 @@ func (ex *Exec) scanEffects(n ast.Node, vars map[types.Object]bool, eff *effects
 							}
 							if sg, ok := under(tv.Type).(*types.Signature); ok && funcValueIsSink(sg) && !isPureCb {
 								eff.ghost["fail"] = true
+								if _, ok := ex.cs.Ghost["wfail"]; ok {
+									eff.ghost["wfail"] = true
+								}
 							}
 						}
 						if ex.countsCallbacks() {
